@@ -1,8 +1,8 @@
 """C16 -- queue policies conserve recipients and content.
 
-Exhaustive: every recipient list of length 0..4 over a seven-address alphabet (duplicates allowed)
+Exhaustive: every recipient list of length 0..4 over six addresses and 0..3 over seven (duplicates allowed)
 x every chain (order and repetition) of up to 2 (quick) / 3 (thorough) queue policies out of eleven
-x four shapes of the original header block -- each through a REAL ``slimta.queue.Queue`` (relay=None)
+x four (two where no policy could tell them apart) shapes of the original header block -- each through a REAL ``slimta.queue.Queue`` (relay=None)
 and its real ``enqueue()`` on the virtual gevent loop, observed at ``QueueStorage.write``.
 
 The oracle is a boring reference of the policies on plain recipient lists (``ref_chain``), composed
@@ -42,8 +42,10 @@ PROPERTY = 'C16'
 LEVEL = 'exploration'
 EXHAUSTIVE = True
 
-RCPT_ALPHABET = ['a@x', 'b@x', 'c@y', 'c@Y', 'd@z', 'nodomain', 'e@']
+RCPT_ALPHABET = ['a@x', 'b@x', 'c@y', 'c@Y', 'nodomain', 'e@']
 MAX_RCPTS = 4
+THIRD_DOMAIN = 'd@z'        # added to the alphabet for lists of length <= 3 ("many domains")
+MAX_RCPTS_WIDE = 3
 
 FORWARD_RULES = {
     # first match wins; a rule whose result is the empty string never rewrites
@@ -72,16 +74,20 @@ HDR_VARIANTS = [
 
 def BOUNDS(tier):
     return {'recipient_alphabet': RCPT_ALPHABET, 'max_recipients': MAX_RCPTS,
+            'recipient_alphabet_up_to_3': RCPT_ALPHABET + [THIRD_DOMAIN],
             'policies': POLICY_NAMES, 'max_chain': _max_chain(tier),
             'forward_rule_sets': {k: [list(r) for r in v] for k, v in FORWARD_RULES.items()},
-            'header_variants': [v[0] for v in HDR_VARIANTS]}
+            'header_variants': [v[0] for v in HDR_VARIANTS],
+            'header_variants_for_chains_without_date_or_message_id_policy': ['none', 'both']}
 
 
-RULE = ('every recipient list of length 0..4 over {a@x,b@x,c@y,c@Y,d@z,nodomain,e@} (duplicates allowed) x '
+RULE = ('every recipient list of length 0..4 over {a@x,b@x,c@y,c@Y,nodomain,e@} and of length 0..3 over that set '
+        'plus d@z (duplicates allowed; 1696 lists) x '
         'every sequence (order, repetition) of <= 2 (quick) / <= 3 (thorough) policies from {RecipientSplit, '
         'RecipientDomainSplit, Forward with rule set 1|2|3|4, AddDateHeader, AddMessageIdHeader, AddReceivedHeader, '
         'a policy returning [envelope], a policy returning [copy-with-the-rest, envelope-trimmed-to-first]} x '
-        '{no Date/Message-Id, DATE only, message-ID only, both} through real Queue.enqueue; a case is '
+        '{no Date/Message-Id, DATE only, message-ID only, both} (only the first and last for chains without a '
+        'Date/Message-Id policy: nothing in such a chain can tell the others apart) through real Queue.enqueue; a case is '
         'non-trivial when more than one envelope is written or a recipient is rewritten')
 ASSUMPTIONS = ['a forwarding rule that matches but whose substitution result is the empty string is read as "does '
                'not rewrite" (the only such rule here is the last of its set, so continue/stop cannot differ)',
@@ -252,6 +258,7 @@ def policy_class(name):
 
 RCPT_POLICIES = ('RecipientSplit', 'RecipientDomainSplit', 'Forward', 'ReturnsInput', 'KeepFirstCopyRest')
 SPLITTERS = ('RecipientSplit', 'RecipientDomainSplit', 'KeepFirstCopyRest')
+REGROUPERS = SPLITTERS + ('ReturnsInput',)
 
 
 def chain_has(chain, which):
@@ -319,12 +326,12 @@ class Case(object):
 
         # (5) return value
         if len(results) != len(written) or any(r[0] is not w[0] or r[1] != w[1] for r, w in zip(results, written)):
-            bad({'kind': 'result-pairs-mismatch', 'chain_has': chain_has(chain, RCPT_POLICIES)},
+            bad({'kind': 'result-pairs-mismatch', 'chain_has': chain_has(chain, REGROUPERS)},
                 'enqueue returned %d pair(s) %r for %d written envelope(s) with ids %r'
                 % (len(results), [r[1] for r in results], len(written), [w[1] for w in written]))
         # (3a) same object written twice
         if len(set(id(o) for o in objs)) != len(objs):
-            bad({'kind': 'same-object-written-twice', 'chain_has': chain_has(chain, RCPT_POLICIES)},
+            bad({'kind': 'same-object-written-twice', 'chain_has': chain_has(chain, REGROUPERS)},
                 'one envelope object was passed to write() more than once (%d writes, %d objects)'
                 % (len(objs), len(set(id(o) for o in objs))))
 
@@ -345,27 +352,25 @@ class Case(object):
                 # the expected address is an original one that no forwarding rule of the chain matches
                 unmatched = missing[0] in rcpts and not any(
                     re.search(p, missing[0]) for n in chain if n in FORWARD_RULES for p, _ in FORWARD_RULES[n])
-                bad({'kind': 'recipient-altered', 'chain_has': chain_has(chain, RCPT_POLICIES),
+                bad({'kind': 'recipient-altered', 'chain_has': chain_has(chain, ('Forward',)),
                      'matches_no_rule': bool(unmatched), 'rcpt_class': rcpt_class(missing[0], rcpts)},
                     'recipient %r expected but %r written; %s' % (missing[0], r, shown))
             elif missing:
-                bad({'kind': 'recipient-lost', 'chain_has': chain_has(chain, RCPT_POLICIES),
+                bad({'kind': 'recipient-lost', 'chain_has': chain_has(chain, REGROUPERS),
                      'rcpt_class': rcpt_class(missing[0], rcpts)},
                     'recipient %r written %d time(s), reference %d; %s'
                     % (missing[0], got_c.get(missing[0], 0), ref_c[missing[0]], shown))
             else:
-                bad({'kind': 'recipient-duplicated', 'chain_has': chain_has(chain, RCPT_POLICIES),
+                bad({'kind': 'recipient-duplicated', 'chain_has': chain_has(chain, REGROUPERS),
                      'rcpt_class': rcpt_class(extra[0], rcpts)},
                     'recipient %r written %d time(s), reference %d; %s'
                     % (extra[0], got_c[extra[0]], ref_c.get(extra[0], 0), shown))
         elif canon(got_groups) != canon(ref_groups):
             odd = [g for g in canon(got_groups) if g not in canon(ref_groups)]
-            cls = 'plain'
-            for r in (odd[0] if odd else ()):
-                if rcpt_class(r, rcpts) != 'plain':
-                    cls = rcpt_class(r, rcpts)
-                    break
-            bad({'kind': 'grouping-mismatch', 'chain_has': chain_has(chain, RCPT_POLICIES), 'rcpt_class': cls},
+            classes = set(rcpt_class(r, rcpts) for g in odd for r in g)
+            cls = ([c for c in ('mixedcase-domain', 'nodomain', 'emptydomain', 'rewritten', 'duplicate')
+                    if c in classes] + ['plain'])[0]
+            bad({'kind': 'grouping-mismatch', 'chain_has': chain_has(chain, REGROUPERS), 'rcpt_class': cls},
                 'recipients conserved but grouped differently: ' + shown)
         if any(not isinstance(r, str) for g in got_groups for r in g):
             bad({'kind': 'recipient-not-str'}, 'non-string recipient written: %r' % (got_groups,))
@@ -400,11 +405,11 @@ class Case(object):
                 want_h = [('X-Probe-%d' % j, 'p')] + before[j][1]
                 now_h = [(str(a), str(b)) for a, b in o.headers.raw_items()]
                 if list(o.recipients) != want_r:
-                    bad({'kind': 'shared-recipients-list', 'chain_has': chain_has(chain, RCPT_POLICIES)},
+                    bad({'kind': 'shared-recipients-list', 'chain_has': chain_has(chain, SPLITTERS)},
                         'after appending a probe address to the recipients of each written envelope, envelope #%d has %r '
                         '(own state + own probe would be %r)' % (j, list(o.recipients), want_r))
                 if now_h != want_h:
-                    bad({'kind': 'shared-headers', 'chain_has': chain_has(chain, RCPT_POLICIES)},
+                    bad({'kind': 'shared-headers', 'chain_has': chain_has(chain, SPLITTERS)},
                         'after adding a probe header to each written envelope, envelope #%d has header names %r '
                         '(own + own probe would be %r)' % (j, [h[0] for h in now_h], [h[0] for h in want_h]))
         info = {'written': canon(got_groups), 'n_written': len(written), 'dontcare': dontcare,
@@ -473,9 +478,16 @@ def all_chains(max_len):
 
 
 def all_rcpt_lists():
+    wide = RCPT_ALPHABET + [THIRD_DOMAIN]
     for n in range(0, MAX_RCPTS + 1):
-        for t in itertools.product(RCPT_ALPHABET, repeat=n):
+        for t in itertools.product(wide if n <= MAX_RCPTS_WIDE else RCPT_ALPHABET, repeat=n):
             yield t
+
+
+def header_variants_for(chain):
+    if 'AddDateHeader' in chain or 'AddMessageIdHeader' in chain:
+        return list(range(len(HDR_VARIANTS)))
+    return [0, len(HDR_VARIANTS) - 1]
 
 
 def run_chain(chain, cases, res, collect=None):
@@ -558,12 +570,12 @@ def run_config(cfg, tier, seed):
     res = Result()
     res.count('configs_run')
     chains = all_chains(cfg['max_chain'])
-    cases = [(rc, hv) for rc in all_rcpt_lists() for hv in range(len(HDR_VARIANTS))]
+    lists = list(all_rcpt_lists())
     for idx, chain in enumerate(chains):
         if idx % cfg['of'] != cfg['part']:
             continue
         res.count('chains')
-        run_chain(chain, cases, res)
+        run_chain(chain, [(rc, hv) for rc in lists for hv in header_variants_for(chain)], res)
     return res.as_dict()
 
 
@@ -575,9 +587,8 @@ def vacuity(counters, tier):
               'cases_message_id_added', 'cases_received_added', 'alias_pairs_probed'):
         if not counters.get(k):
             problems.append('counter %s is 0' % k)
-    n_lists = sum(len(RCPT_ALPHABET) ** n for n in range(MAX_RCPTS + 1))
-    n_chains = sum(len(POLICY_NAMES) ** n for n in range(_max_chain(tier) + 1))
-    want = n_lists * n_chains * len(HDR_VARIANTS)
+    n_lists = len(list(all_rcpt_lists()))
+    want = n_lists * sum(len(header_variants_for(c)) for c in all_chains(_max_chain(tier)))
     if counters.get('cases') != want:
         problems.append('ran %r cases, the product is %d' % (counters.get('cases'), want))
     return problems
